@@ -1,4 +1,5 @@
 import SnaxVerif.Lemmas.Casts
+import SnaxVerif.Lemmas.CastsPlace
 import SnaxVerif.Lemmas.CastsConst
 import SnaxVerif.Props.C10
 /-!
@@ -23,13 +24,13 @@ For every static layout with positive steps and bounds (any rank, any tiling dep
 offset and any data: whenever `transform_constant` produces new data, the element with logical index `idx`
 (position `rowMajor idx` of the source) sits at position `addr l idx` of the new data, for every `idx` of the box.
 (`transform_constant` only produces data for layouts that `is_dense()` accepts; density is not a hypothesis.) -/
-theorem transformConstant_correct (data : List Int) (s : SLayout) (off : Option Int) (hpos : SPos s)
-    (out : List Int) (h : transformConstant data (ofStatic s off) = .ok (some out)) :
+theorem transformConstant_correct (ro : Bool) (data : List Int) (s : SLayout) (off : Option Int) (hpos : SPos s)
+    (out : List Int) (h : transformConstantF ro data (ofStatic s off) = .ok (some out)) :
     out.length = data.length ∧
     ∀ idx ∈ points (shape s), addr s idx < out.length ∧ rowMajor (shape s) idx < data.length ∧
       out[addr s idx]? = data[rowMajor (shape s) idx]? := by
   obtain ⟨b, hb, hiff⟩ := C10.isDense_iff s off hpos
-  unfold transformConstant at h
+  unfold transformConstantF at h
   rw [hb] at h
   cases b with
   | false => simp at h
@@ -37,22 +38,61 @@ theorem transformConstant_correct (data : List Int) (s : SLayout) (off : Option 
     simp only [static?_ofStatic] at h
     split at h
     · cases h
-    next hlen =>
-      have hlen' : data.length = size s := by simpa using hlen
-      cases h
-      have hch := dense_isChain s hpos (hiff.mp rfl)
-      refine ⟨relayout_length data s, fun idx hidx => ?_⟩
-      have := relayout_correct data s hpos hlen' hch idx hidx
-      rw [relayout_length]
-      exact this
+    · split at h
+      · cases h
+      next hlen =>
+        have hlen' : data.length = size s := by simpa using hlen
+        cases h
+        have hch := dense_isChain s hpos (hiff.mp rfl)
+        refine ⟨relayout_length data s, fun idx hidx => ?_⟩
+        have := relayout_correct data s hpos hlen' hch idx hidx
+        rw [relayout_length]
+        exact this
 
 /-- `transform_constant` does produce data for every dense static layout of the right size -/
 theorem transformConstant_total (data : List Int) (s : SLayout) (off : Option Int)
     (hd : (ofStatic s off).isDense = .ok true) (hlen : data.length = size s) :
     transformConstant data (ofStatic s off) = .ok (some (relayout data s)) := by
-  unfold transformConstant
+  unfold transformConstant transformConstantF
   rw [hd]
   simp [static?_ofStatic, hlen]
+
+/-- The full clause "at the positions the new layout prescribes" includes the offset of the layout: the element with
+logical index `idx` has to sit at `offset + addr l idx`. Since the new data starts at element 0 this needs
+`offset = 0` whenever data is produced. -/
+def transformConstant_offset_statement (ro : Bool) : Prop :=
+  ∀ (data : List Int) (l : Layout) (out : List Int), transformConstantF ro data l = .ok (some out) → l.offset = some 0
+
+/-- with the proposed fix FC12d data is only produced for layouts without offset … -/
+theorem transformConstant_offset_fixed : transformConstant_offset_statement true := by
+  intro data l out h
+  unfold transformConstantF at h
+  split at h
+  · cases h
+  · cases h
+  · split at h
+    · cases h
+    · split at h
+      · cases h
+      next hno =>
+        simp only [Bool.true_and, bne_iff_ne, ne_eq, Decidable.not_not] at hno
+        exact hno
+
+/-- … and it still is produced for every dense static layout without offset -/
+theorem transformConstant_total_fixed (data : List Int) (s : SLayout)
+    (hd : (ofStatic s (some 0)).isDense = .ok true) (hlen : data.length = size s) :
+    transformConstantF true data (ofStatic s (some 0)) = .ok (some (relayout data s)) := by
+  unfold transformConstantF
+  rw [hd]
+  have ho : (ofStatic s (some 0)).offset = some 0 := rfl
+  simp [static?_ofStatic, hlen, ho]
+
+/-- **Finding DC12d**: the code as found re-lays-out a constant for a layout with offset 3 -/
+theorem transformConstant_offset_fails : ¬ transformConstant_offset_statement false := by
+  intro h
+  have := h [1, 2, 3, 4] (ofStatic [[⟨1, 2⟩], [⟨2, 2⟩]] (some 3)) [1, 3, 2, 4] (by decide +kernel)
+  revert this
+  decide
 
 /-- **`transpose_tuple` transposes**: for every `cols × rows` array (row-major, `rows` entries per row) the result
 is the `rows × cols` array with `out[i][j] = in[j][i]`. -/
@@ -124,6 +164,25 @@ theorem memspace_post :
     simp only [initReturn]
     split <;> simp_all
 
+/-! ## the L1 casts of `set-memory-space` -/
+
+/-- every operand of an accelerator operation is fed by a cast that is visible at the operation (the IR after the
+pass is well-formed w.r.t. these casts) -/
+def castsDominate_statement (fixed : Bool) : Prop :=
+  ∀ (b : MBlk), ∀ e ∈ assignCasts fixed b, domB e.2.2 e.1 = true
+
+/-- with the proposed fix FC12c: for every function body (any nesting, any operand lists) -/
+theorem castsDominate_fixed : castsDominate_statement true := by
+  intro b e he
+  exact MBlk.walk_inv b [] 0 ⟨[], []⟩ (fun _ h => by cases h) e he
+
+/-- **Finding DC12c** (code as found): a cast created inside a loop is re-used by a later operation outside of it -/
+theorem castsDominate_fails : ¬ castsDominate_statement false := by
+  intro h
+  have := h (.cons (.loop (.cons (.op [0]) .nil)) (.cons (.op [0]) .nil)) ([1], 0, [0, 0]) (by decide +kernel)
+  revert this
+  decide
+
 /-! ## copies around the stand-in buffer -/
 
 /-- What "delivers the right data to every consumer" means for one application of `RealizeMemrefCasts`
@@ -167,6 +226,28 @@ theorem C12_realize_partial (S A : List Nat) (b : Blk) (wf : WF S A) (hacc : Acc
     · exact hsrc hacc x hs
     · exact hoff x hx hs
   next => cases hacc
+
+/-- **The placement rule establishes the clause `Accepted`**: for every block that satisfies the syntactic clauses
+`Syntactic` (= `Clean` + `SourceQuiet` + `LastWriterTop` on a split `pre ++ mid ++ post` with all uses in `mid`), the
+placement computed by the rule (with F10) is accepted by the checker. Unbounded in the length of the block, in the
+nesting inside the items and in the number and order of readers and writers. -/
+theorem C12_placement_accepted (S A : List Nat) (b : Blk) (h : Syntactic S A b) : Accepted S A b :=
+  realize_accepted S A b h
+
+/-- **Materialised casts deliver the right data (with F10), under syntactic clauses only**:
+* `Clean` — the block does not address the fresh stand-in cells and contains no inserted copies;
+* `SourceQuiet` — between the first and the last item of the cast's block that use the cast, the source is not
+  addressed through another path (dropped clause refuted by `C12_realize_direct_fails`, finding DC12b);
+* `LastWriterTop` — the last use of the cast as an output, if any, is an operation of the cast's block itself, not
+  nested in a loop (dropped clause refuted by `C12_realize_fails`, finding DC12a).
+Readers, and writers other than the last one, may be nested at any depth; loops may run any number of times. -/
+theorem C12_realize_syntactic_partial (S A : List Nat) (b : Blk) (wf : WF S A) (h : Syntactic S A b) :
+    Delivers true S A b :=
+  C12_realize_partial S A b wf (C12_placement_accepted S A b h)
+
+/-- the clauses are decidable: `synB` (evaluated by the harness on every generated program) is sound for them -/
+theorem C12_syntactic_decision (S A : List Nat) (b : Blk) (h : synB S A b = true) : Syntactic S A b :=
+  synB_sound S A b h
 
 /-- The checker is sound for any placement of the copies (not only the rule's): translation validation of the
 real pass output. -/
@@ -240,6 +321,12 @@ theorem C12_realize_direct_fails : ¬ Delivers true [0] [1] rDirectR := by
 example : ¬ Accepted [0] [1] wLoopW := by unfold Accepted; decide +kernel
 example : ¬ Accepted [0] [1] rDirectR := by unfold Accepted; decide +kernel
 
+/-- the failing blocks violate the syntactic clauses -/
+example : ¬ Syntactic [0] [1] wLoopW := fun h =>
+  (by unfold Accepted; decide +kernel : ¬ Accepted [0] [1] wLoopW) (C12_placement_accepted _ _ _ h)
+example : ¬ Syntactic [0] [1] rDirectR := fun h =>
+  (by unfold Accepted; decide +kernel : ¬ Accepted [0] [1] rDirectR) (C12_placement_accepted _ _ _ h)
+
 /-- the rule as found is also wrong on the full statement -/
 theorem C12_realize_orig_fails : ¬ C12_realize_statement false := fun h =>
   C12_wrw_fails (h [0] [1] wrw wf01 (by decide +kernel))
@@ -251,6 +338,13 @@ accepted -/
 example : Accepted [0] [1]
     (blk [op 0 other other, .loop 0 (blk [op 1 .cast other, op 2 other .cast]), op 3 .cast .cast,
       op 4 source other]) := by unfold Accepted; decide +kernel
+
+/-- the same block satisfies the syntactic clauses (loop with reader and writer, then a top-level reader/writer, a
+direct use of the source only after the segment) -/
+example : Syntactic [0] [1]
+    (blk [op 0 other other, .loop 0 (blk [op 1 .cast other, op 2 other .cast]), op 3 .cast .cast,
+      op 4 source other]) := C12_syntactic_decision _ _ _ (by decide +kernel)
+example : Syntactic [0] [1] wrw := C12_syntactic_decision _ _ _ (by decide +kernel)
 
 /-- `transform_constant` on a 2×4 array, layout `[2,2]→(1,4), [2]→(2)`: hypotheses of `transformConstant_correct` -/
 example : transformConstant [0, 1, 2, 3, 4, 5, 6, 7] (ofStatic [[⟨2, 2⟩], [⟨1, 2⟩, ⟨4, 2⟩]] (some 0))
